@@ -5,8 +5,8 @@ using namespace simd;
 using sdbm_t = split_dbm_domain<z_number, varname_t, G_int64>;
 using D = product_value_partitioning_domain<sdbm_t>;
 SIM_REGISTER_DOMAIN(partition_zones, D, "partition_zones",
-                    CAP_INT64 | CAP_NTOW | CAP_PARTITION | CAP_CORE)
+                    CAP_INT64 | CAP_NTOW | CAP_PARTITION | CAP_CORE | CAP_BACKWARD)
 // the single-variable variant
 using D1 = value_partitioning_domain<sdbm_t>;
 SIM_REGISTER_DOMAIN(partition1_zones, D1, "partition1_zones",
-                    CAP_INT64 | CAP_NTOW | CAP_PARTITION | CAP_CORE)
+                    CAP_INT64 | CAP_NTOW | CAP_PARTITION | CAP_CORE | CAP_BACKWARD)
